@@ -295,7 +295,7 @@ def gen_io_case(r, k):
         c["buf"] = {"raw": 3, "rawg": 8}.get(fmt, 3)
     kinds = {"multicol": ["truncate", "drop", "garble", "insert"], "raw": ["truncate", "drop", "garble"],
              "rawg": ["truncate", "drop", "garble"], "file": ["truncate-rows"], "state": ["truncate", "drop", "garble", "insert"],
-             "dx": [], "remap": []}[fmt]
+             "dx": [], "remap": ["truncate-rows", "garble"]}[fmt]
     c["mutations"] = [(kind, r.randint(0, 1 << 30)) for kind in kinds]
     return c
 
@@ -325,7 +325,7 @@ def read_cmds(c, text):
         return "GF %d TEXT %s" % (c["g"]["mult"], bar), "READ file %d TOKS %s" % (c["g"]["mult"], toks)
     s = spec(c["g0"])
     if f == "remap":
-        return "GR multicolR %d %s TEXT %s" % (c["add"], s, bar), "READ multicol %d %s TOKS %s" % (c["add"], s, toks)
+        return "GR multicol %d %s TEXT %s" % (c["add"], s, bar), "READ multicol %d %s TOKS %s" % (c["add"], s, toks)
     if f == "multicol":
         return "GR multicol %d %s TEXT %s" % (c["add"], s, bar), "READ multicol %d %s TOKS %s" % (c["add"], s, toks)
     return "GR raw %s TEXT %s" % (s, bar), "READ raw %s TOKS %s" % (s, toks)
@@ -532,7 +532,10 @@ def run_io(run, r, unit, model, n):
         if mut is None:
             exp = expected_after_read(c)
             bad = grids_differ(gi, exp, tol) if gi is not None else "the reader rejected the file it had written"
-            if bad and f == "remap":
+            if gi is None and f == "remap":
+                run.violation("io:remap:stream-failed", "a complete multicolumn file read into a grid of another definition (lower %s sizes %s) is reported as a failed read" % (
+                    c["g0"]["lower"], c["g0"]["nx"]), {"kind": "io", "write": write_cmds(c)[0], "read": a, "text": text})
+            elif bad and f == "remap":
                 run.violation("io:remap", "a multicolumn file read into a grid of another definition (lower %s sizes %s periodic %s, add=%d): %s; every value belongs in the bin that contains its bin centre (modulo the period)" % (
                     c["g0"]["lower"], c["g0"]["nx"], c["g0"]["per"], c["add"], bad),
                     {"kind": "io", "write": write_cmds(c)[0], "read": a, "text": text, "expected": exp, "got": gi})
@@ -543,7 +546,8 @@ def run_io(run, r, unit, model, n):
                     {"kind": "io", "write": write_cmds(c)[0], "read": a, "text": text, "expected": exp, "got": gi})
         else:
             run.dist("io:damaged:" + mut.split(":")[0])
-            if gi is not None and (mut.startswith("truncate")):
+            # (a re-gridded file cut between two records cannot be told from a shorter file: only the tie applies there)
+            if gi is not None and mut.startswith("truncate") and f != "remap":
                 run.violation("io:truncated-accepted:" + f, "a %s file %s was accepted without any error (grid returned: %s)" % (f, mut, oi[:200]),
                               {"kind": "io", "read": a, "text": text})
             if gi is None:
@@ -555,3 +559,151 @@ def run_io(run, r, unit, model, n):
     smp = next((c for c in cases if c["fmt"] == "state" and "text" in c), None)
     if smp:
         run.sample({"state_form_written_by_the_real_code": smp["text"].split("\n")[:12]})
+
+
+# ------------------------------------------------------------------------------------------------------------
+# round 3: decimal formatting, unformatted (memory_stream) raw form, grids normalised by a count grid, "# 0" header
+import struct
+from decimal import Decimal, ROUND_HALF_EVEN, getcontext
+
+
+def dec_exact(x, p):
+    """x rounded to p significant decimal digits, exactly (ties to even, as the C library does)"""
+    if x == 0.0:
+        return Decimal(0)
+    getcontext().prec = 60
+    d = Decimal(x)
+    e = d.adjusted()
+    q = Decimal(1).scaleb(e - p + 1)
+    return (d / q).quantize(Decimal(1), rounding=ROUND_HALF_EVEN) * q
+
+
+def run_round3(run, r, unit, model, n):
+    # ---- decimal round trip of single numbers
+    xs = []
+    for k in range(n):
+        m = r.random()
+        if m < 0.2:
+            x = V.dyadic(r, -1000, 1000)
+        elif m < 0.5:
+            x = r.choice([-1, 1]) * r.uniform(1, 9.999999) * 10.0 ** r.randint(-30, 30)
+        elif m < 0.6:
+            x = r.choice([-1, 1]) * (10.0 ** r.randint(-5, 5)) * (1 - r.choice([0, 1e-16, 3e-15, 4.9e-15, 5.1e-15]))   # next to a power of ten
+        else:
+            x = r.choice(NONDYADIC) * r.uniform(0.1, 1e4)
+        xs.append((r.choice([14, 15, 15, 6]), x))
+    lines = ["DEC %d %s" % (p, V.hexf(x)) for p, x in xs]
+    rc1, oi, e1 = V.run_lines(unit, lines)
+    rc2, om, e2 = V.run_lines(model, lines)
+    for (p, x), li, lm, cmd in zip(xs, oi, om + ["?"] * len(lines), lines):
+        w = li.split()
+        run.count(cmd, True)
+        run.dist("dec:p=%d" % p)
+        if len(w) != 4:
+            run.mismatch("dec:format", cmd, li, lm)
+            continue
+        want = dec_exact(x, p)
+        for txt, back, style in ((w[0], w[1], "scientific"), (w[2], w[3], "default")):
+            got = float.fromhex(back)
+            bad = None
+            if Decimal(txt) != want:
+                bad = "printed %s, the nearest %d-digit decimal is %s" % (txt, p, want)
+            elif got != float(txt):
+                bad = "%s was read back as %r" % (txt, got)
+            elif abs(Decimal(got) - Decimal(x)) > Decimal(abs(x)) * (Decimal(10) ** (1 - p)) / 2 + Decimal(abs(x)) * Decimal(2) ** -52:
+                bad = "read back %r: further than half a unit of the last digit" % got
+            if bad:
+                run.violation("dec:roundtrip", "the number %r written with %d significant digits (%s notation) and read back: %s" % (x, p, style, bad),
+                              {"kind": "unit", "case": cmd, "impl": li})
+        try:
+            mv = float.fromhex(lm)
+        except ValueError:
+            mv = None
+        # the float instance of the model computes x*10^k in binary: agreement to one unit of the last digit
+        if mv is None or abs(mv - float.fromhex(w[1])) > abs(x) * 10.0 ** (1 - p) * 1.01:
+            run.mismatch("dec:roundtrip", cmd, li, lm)
+    # ---- unformatted raw form: bit-exact
+    cases = [rand_grid(r, r.random() < 0.5, r.random() < 0.3) for _ in range(max(8, n // 8))]
+    rc1, wi, e1 = V.run_lines(unit, ["GWB " + spec(g) for g in cases])
+    rc2, wm, e2 = V.run_lines(model, ["WRITE rawbin " + spec(g) for g in cases])
+    rl, meta = [], []
+    for g, ti, tm in zip(cases, wi, wm):
+        run.count("bin" + spec(g)[:60], True)
+        run.dist("io:rawbin")
+        hx = ti[2:] if ti.startswith("X ") else ""
+        vals = list(struct.unpack("<%dd" % (len(hx) // 16), bytes.fromhex(hx[:(len(hx) // 16) * 16]))) if hx else []
+        mt = [float.fromhex(t[2:]) for t in tm[2:].split()] if tm.startswith("T ") else None
+        if len(hx) != 16 * len(g["data"]) or [v.hex() for v in vals] != [float(v).hex() for v in g["data"]]:
+            run.violation("io:roundtrip:rawbin", "the unformatted raw form of a grid is not its data array bit for bit: %s vs %s" % (vals[:6], g["data"][:6]),
+                          {"kind": "unit", "case": "GWB " + spec(g), "impl": ti})
+        if mt is None or [v.hex() for v in mt] != [v.hex() for v in vals]:
+            run.mismatch("io:write:rawbin", "GWB " + spec(g)[:300], ti[:200], tm[:200])
+        g0 = other_data(r, g, True)
+        for cut in (0, r.randint(1, max(1, len(hx) // 2)), 8 * 2 * r.randint(1, max(1, len(g["data"])))):
+            h2 = hx[:len(hx) - cut] if cut else hx
+            toks = " ".join("N:" + v.hex() for v in struct.unpack("<%dd" % (len(h2) // 16), bytes.fromhex(h2[:(len(h2) // 16) * 16])))
+            rl.append(("GRB %s HEX %s" % (spec(g0), h2 if h2 else "-"), "READ rawbin %s TOKS %s" % (spec(g0), toks)))
+            meta.append((g, g0, cut))
+    rc1, ri, e1 = V.run_lines(unit, [a for a, _ in rl])
+    rc2, rm, e2 = V.run_lines(model, [b for _, b in rl])
+    for (g, g0, cut), (a, b), oi_, om_ in zip(meta, rl, ri, rm + ["?"] * len(rl)):
+        gi, gm = parse_grid(oi_), parse_grid(om_)
+        run.count(a[:80] + str(cut), True)
+        if cut == 0:
+            exp = dict(g0); exp["data"] = g["data"]
+            bad = grids_differ(gi, exp, 0.0) if gi else "rejected"
+            if bad:
+                run.violation("io:roundtrip:rawbin", "the unformatted raw form read back is not the same grid (%s)" % bad, {"kind": "unit", "case": a, "impl": oi_})
+        elif gi is not None:
+            run.violation("io:truncated-accepted:rawbin", "an unformatted raw stream cut by %d hex digits was accepted" % cut, {"kind": "unit", "case": a, "impl": oi_})
+        d = grids_differ(gi, gm, 0.0)
+        if d:
+            run.mismatch("io:read:rawbin", a[:400], oi_[:200], om_[:200] + " [" + d + "]")
+    # ---- gradient grids normalised by a count grid
+    ncases = []
+    for _ in range(max(8, n // 8)):
+        dy = r.random() < 0.5
+        g = rand_grid(r, True, dy)
+        npts = len(g["data"]) // g["mult"]
+        counts = [r.choice([0, 0, 1, 2, 3, 4, 7, 8, 1000]) for _ in range(npts)]
+        honest = r.random() < 0.7       # the accumulators' invariant: no samples, no data
+        if honest:
+            g["data"] = [0.0 if counts[k // g["mult"]] == 0 else v for k, v in enumerate(g["data"])]
+        ncases.append((g, counts, dy))
+    rc1, ni_, e1 = V.run_lines(unit, ["GN %s C %d %s" % (spec(g), len(c), " ".join(map(str, c))) for g, c, _ in ncases])
+    rc2, nm, e2 = V.run_lines(model, ["NORM %d %d %s %d %s" % (g["mult"], len(c), " ".join(V.hexf(float(x)) for x in c), len(g["data"]),
+                                                             " ".join(V.hexf(x) for x in g["data"])) for g, c, _ in ncases])
+    for (g, counts, dy), li, lm in zip(ncases, ni_, nm + ["?"] * len(ncases)):
+        run.count("norm" + li[:60], True)
+        run.dist("io:normalised")
+        cmd = "GN %s C %d %s" % (spec(g), len(counts), " ".join(map(str, counts)))
+        if " @@ " not in li or " @@ " not in lm:
+            run.mismatch("io:normalised", cmd[:300], li[:200], lm[:200])
+            continue
+        text, back = li.split(" @@ ")
+        gi = parse_grid(back)
+        m_norm, m_back = [[float.fromhex(t) for t in part.split()] for part in lm.split(" @@ ")]
+        rows = [[float(x) for x in l.split()] for l in text[2:].replace("|", "\n").split("\n") if l.strip() and not l.startswith("#")]
+        written = [v for row in rows for v in row[g["nd"]:]]
+        tol = 0.0 if dy else 1e-13
+        mult = g["mult"]
+        exp_written = [(g["data"][k] / counts[k // mult]) if counts[k // mult] > 0 else 0.0 for k in range(len(g["data"]))]
+        if len(written) != len(exp_written) or any(not close(a_, b_, max(tol, 1e-14)) for a_, b_ in zip(written, exp_written)):
+            run.violation("io:normalised:written", "a gradient grid with sample counts %s writes %s, the averages are %s" % (counts[:8], written[:8], exp_written[:8]),
+                          {"kind": "unit", "case": cmd, "impl": li})
+        if any(not close(a_, b_, max(tol, 1e-14)) for a_, b_ in zip(written, m_norm)) or len(written) != len(m_norm):
+            run.mismatch("io:normalised:written", cmd[:300], written[:8], m_norm[:8])
+        # read back: data where sampled (or zero), zero where a bin has data but no samples (documented by the theorems)
+        exp_back = [g["data"][k] if counts[k // mult] > 0 else 0.0 for k in range(len(g["data"]))]
+        if gi is None or any(not close(a_, b_, 1e-12) for a_, b_ in zip(gi["data"], exp_back)):
+            run.violation("io:roundtrip:normalised", "a gradient grid normalised by its sample counts, written and read back with the same counts: %s, expected %s (counts %s)" % (
+                gi["data"][:8] if gi else "ERR", exp_back[:8], counts[:8]), {"kind": "unit", "case": cmd, "impl": li})
+        if gi is None or any(not close(a_, b_, 1e-12) for a_, b_ in zip(gi["data"], m_back)):
+            run.mismatch("io:roundtrip:normalised", cmd[:300], back[:200], m_back[:8])
+    # ---- a header announcing zero variables must be rejected, not looped over
+    rc, o, e = V.sh([unit], input="GF 1 TEXT # 0|\nGF 1 TEXT # x|\nGF 1 TEXT #|\n", timeout=20)
+    run.count("nd0-header", True)
+    if rc == 124 or o.split("\n")[:3] != ["ERR", "ERR", "ERR"]:
+        run.violation("io:hang:file-header-nd0", "the grid constructor given a multicolumn file whose header is '# 0', '# x' or '#' %s" % (
+            "did not return within 20 s" if rc == 124 else "answered %s instead of an error" % o.split("\n")[:3]),
+            {"kind": "unit", "case": "GF 1 TEXT # 0|"})
